@@ -4,6 +4,7 @@ several properties; the property modules pick theirs (tmpl.pick)."""
 from __future__ import annotations
 
 import warnings
+from typing import Optional as Opt_  # noqa: F401  (annotations of model classes are resolved in this module's namespace)
 
 import z3
 
@@ -363,6 +364,146 @@ def fault_cases(tier):
         for lazy in (False, True):
             mf = 1 if tier == "quick" else None
             out.append((f"PL/X/{shape}/lazy={int(lazy)}/N={N}/faults<={mf}", pl_fault_case, (shape, lazy, N, mf)))
+    return out
+
+
+# ------------------------------------------------------------------ DataFrameModel on polars (C16)
+def pl_model_case(v, shape, N):
+    """a pandera.polars DataFrameModel (fields, Optional, alias, Config, @check / @dataframe_check, inheritance with overrides) validates a
+    polars DataFrame exactly like the object-API polars schema with the same columns, checks and options"""
+    import tmpl
+
+    from sympl import PROXY as pl
+
+    lo, hi = v.int("lo"), v.int("hi")
+    nullable, unique = v.bool("nullable"), v.bool("unique")
+    strict_v = v.choice("strict", [False, True])
+    arr = [("a", "float"), ("b", "int")]
+    asserts, facts = [], dict(shape=shape)
+    with warnings.catch_warnings():
+        warnings.simplefilter("ignore")
+        if shape == "single":
+            class M(ppl.DataFrameModel):
+                a: float = ppl.Field(ge=lo, nullable=nullable, unique=unique)
+                b: int = ppl.Field(isin=[1, 2, 3])
+
+                class Config:
+                    strict = strict_v
+            spec = ppl.DataFrameSchema({"a": ppl.Column(float, Check.ge(lo), nullable=nullable, unique=unique), "b": ppl.Column(int, Check.isin([1, 2, 3]))}, strict=strict_v)
+            parent = None
+        elif shape == "override_field":
+            class Base(ppl.DataFrameModel):
+                a: float = ppl.Field(ge=lo, nullable=nullable)
+                b: int = ppl.Field(isin=[1, 2, 3])
+
+            class M(Base):
+                a: float = ppl.Field(le=hi, unique=unique)
+            spec = ppl.DataFrameSchema({"a": ppl.Column(float, Check.le(hi), unique=unique), "b": ppl.Column(int, Check.isin([1, 2, 3]))})
+            parent = (Base, ppl.DataFrameSchema({"a": ppl.Column(float, Check.ge(lo), nullable=nullable), "b": ppl.Column(int, Check.isin([1, 2, 3]))}))
+        elif shape == "optional_alias":
+            class M(ppl.DataFrameModel):
+                a: float = ppl.Field(ge=lo, nullable=nullable, alias="a1")
+                b: Opt_[int] = ppl.Field(isin=[1, 2, 3])
+            spec = ppl.DataFrameSchema({"a1": ppl.Column(float, Check.ge(lo), nullable=nullable), "b": ppl.Column(int, Check.isin([1, 2, 3]), required=False)})
+            arr = [("a1", "float")] + ([("b", "int")] if v.choice("has_b", [True, False]) else [])
+            parent = None
+        elif shape == "check_methods":
+            class Base(ppl.DataFrameModel):
+                a: float = ppl.Field(nullable=nullable)
+                b: int
+                _limit = lo
+
+                @ppl.check("a")
+                def a_big(cls, data):  # noqa: N805
+                    return data.lazyframe.select(pl.col(data.key).ge(cls._limit))
+
+                @ppl.dataframe_check
+                def wide(cls, data):  # noqa: N805
+                    return data.lazyframe.select(pl.col("b").le(hi))
+
+            class M(Base):
+                _limit = hi
+
+            if v.choice("order", ["parent_first", "child_first"]) == "parent_first":
+                Base.to_schema(), M.to_schema()
+            else:
+                M.to_schema(), Base.to_schema()
+            mk = lambda lim: ppl.DataFrameSchema({"a": ppl.Column(float, Check(lambda d: d.lazyframe.select(pl.col(d.key).ge(lim))), nullable=nullable), "b": ppl.Column(int)},  # noqa: E731
+                                                 checks=Check(lambda d: d.lazyframe.select(pl.col("b").le(hi))))
+            spec = mk(hi)
+            parent = (Base, mk(lo))
+        else:
+            raise KeyError(shape)
+        df = v.plframe([(c, k, k != "int") for c, k in arr], N)
+        s1, s1b = M.to_schema(), M.to_schema()
+        asserts.append(("model/to_schema_stable", v.holds(tmpl.fingerprint(s1) == tmpl.fingerprint(s1b))))
+        if shape != "check_methods":
+            asserts.append(("model/schema_equals_spec", v.holds(tmpl._fp_cols(s1) == tmpl._fp_cols(spec))))
+        om = H.outcome(lambda: M.validate(df))
+        os_ = H.outcome(lambda: spec.validate(df))
+        asserts.append(("model/verdict_equals_schema", v.holds(om["kind"] == os_["kind"] and om.get("reason") == os_.get("reason"))))
+        if parent is not None:
+            P, pspec = parent
+            op, osx = H.outcome(lambda: P.validate(df)), H.outcome(lambda: pspec.validate(df))
+            asserts.append(("model/parent_verdict", v.holds(op["kind"] == osx["kind"])))
+    facts.update(model=om["kind"], schema=os_["kind"], mreason=om.get("reason"), sreason=os_.get("reason"), _msg=om.get("msg"))
+    return dict(obs=om, asserts=asserts, facts=facts)
+
+
+def model_cases(tier):
+    out = []
+    for N in ((2,) if tier == "quick" else (1, 2, 3)):
+        for shape in ("single", "override_field", "optional_alias", "check_methods"):
+            out.append((f"PL/M/{shape}/N={N}", pl_model_case, (shape, N)))
+    return out
+
+
+# ------------------------------------------------------------------ check options on polars (C19)
+def pl_option_case(v, what, N, opts):
+    """element_wise == vectorised expression; ignore_na; raise_warning; aliases — through the real polars check backend"""
+    from sympl import PROXY as pl
+
+    c = v.int("c")
+    df = v.plframe([("x", "float")], N)
+    xs, ns = v.cells("x_", "float", N, True)
+    asserts, facts = [], dict(what=what)
+
+    def verdict(check):
+        with config_context(validation_depth=ValidationDepth.SCHEMA_AND_DATA):
+            return H.outcome(lambda: ppl.DataFrameSchema({"x": ppl.Column(float, check, nullable=True)}).validate(df, lazy=bool(opts.get("lazy"))))
+
+    vec = lambda d: d.lazyframe.select(pl.col(d.key).gt(c))  # noqa: E731
+    if what == "element_wise":
+        o1 = verdict(Check(lambda x: x > c, element_wise=True))
+        o2 = verdict(Check(vec))
+        asserts.append(("opt/element_wise_verdict", v.holds((o1["kind"] == "accept") == (o2["kind"] == "accept"))))
+        spec = z3.And(*[z3.Or(ns[i], xs[i] > v.z(c)) for i in range(N)]) if N else T
+        asserts.append(("opt/element_wise_spec", v.iff(o1["kind"] == "accept", spec)))
+        facts.update(el=o1["kind"], vec=o2["kind"])
+    elif what == "raise_warning":
+        plain, warn = verdict(Check(vec)), verdict(Check(vec, raise_warning=True))
+        asserts.append(("opt/raise_warning_never_raises", v.holds(warn["kind"] == "accept")))
+        asserts.append(("opt/raise_warning_warns_iff_fails", v.holds((warn.get("warnings", 0) > 0) == (plain["kind"] != "accept"))))
+        facts.update(plain=plain["kind"], warn=warn["kind"])
+    elif what == "ignore_na":
+        o = verdict(Check(vec, ignore_na=True))
+        asserts.append(("opt/ignore_na_true_spec", v.iff(o["kind"] == "accept", z3.And(*[z3.Or(ns[i], xs[i] > v.z(c)) for i in range(N)]) if N else T)))
+    elif what == "alias":
+        for name, x, y in (("eq", Check.eq(c), Check.equal_to(c)), ("ge", Check.ge(c), Check.greater_than_or_equal_to(c)), ("lt", Check.lt(c), Check.less_than(c)),
+                           ("between", Check.between(c, c + 2), Check.in_range(c, c + 2))):
+            a, b = verdict(x), verdict(y)
+            asserts.append((f"opt/alias_{name}", v.holds(a["kind"] == b["kind"])))
+    else:
+        raise KeyError(what)
+    return dict(obs=None, asserts=asserts, facts=facts)
+
+
+def option_cases(tier):
+    out = []
+    for N in ((2,) if tier == "quick" else (1, 2, 3)):
+        for what in ("element_wise", "raise_warning", "ignore_na", "alias"):
+            for lazy in (False, True):
+                out.append((f"PL/OPT/{what}/lazy={int(lazy)}/N={N}", pl_option_case, (what, N, dict(lazy=lazy))))
     return out
 
 
